@@ -6,4 +6,10 @@ TEXT = {
   "note": "Ground truth for memory is read through the Go slices that back each frame (obtained without offset arithmetic). Hash position-independence is checked metamorphically against a fresh single-row frame.",
   "technique": "stateful property-based testing (rapid) against a reference model",
  },
+ "C07": {
+  "text": "Round trip: rapid-generated streams (17-type universe incl. gob structs/slices/maps and a custom codec with per-stream dictionary state, empty batches, sizes around 128/256, destination-size schedules, byte sources with and without io.ByteReader) must decode to exactly the rows written. Integrity: for each generated small stream EVERY single-bit flip and EVERY truncation point of its encoded bytes is executed (complete per stream), plus random bursts / multi-point damage on larger streams; delivered rows must be a prefix of the written rows, damage inside batch k must give a non-EOF error with no row of batch >= k delivered, guard rows around every destination view must stay untouched, no panic. Thorough adds native coverage-guided fuzzing of the decoder with a round-trip oracle inside the target.",
+  "design_ref": "DESIGN.md 4 C07",
+  "note": "Streams whose (damaged) top-level int message exceeds 2^20 are excluded by construction and counted (corrupt length -> giant allocation; see DESIGN.md findings). CRC32 collisions (2^-32 per multi-byte damage) are accepted. Native fuzzing is not seed-reproducible; a saved crasher is the reproducible unit.",
+  "technique": "property-based round trip + exhaustive single-fault enumeration per generated stream + coverage-guided fuzzing",
+ },
 }
